@@ -103,6 +103,15 @@ type c09ShCfg struct {
 	BucketMs  int64 `json:"bucket_ms"`
 	Buckets   int   `json:"buckets"`
 	Threshold int64 `json:"cpu_threshold"`
+	// the shedder is built WITHOUT the corresponding option(s); BucketMs/Buckets/Threshold
+	// then hold the package defaults it must behave by
+	OmitThreshold bool `json:"omit_threshold_option,omitempty"`
+	OmitWindow    bool `json:"omit_window_options,omitempty"`
+}
+
+// c09Defaults returns the effective configuration of a shedder built without options.
+func c09Defaults() c09ShCfg {
+	return c09ShCfg{BucketMs: int64(defaultWindow/time.Duration(defaultBuckets)) / c09Ms, Buckets: defaultBuckets, Threshold: defaultCpuThreshold}
 }
 
 type c09RB struct{ passes, rtSumNs, rtSumCeilMs, n int64 }
@@ -189,9 +198,20 @@ func c09RunTrace(m *vk.M, idx int, tr c09Trace, obs *c09ShObs) {
 	cfgs := append([]c09ShCfg{{BucketMs: tr.BucketMs, Buckets: tr.Buckets, Threshold: tr.Threshold}}, tr.More...)
 	sides := make([]*c09Side, len(cfgs))
 	for k, c := range cfgs {
+		var opts []ShedderOption
+		if c.OmitWindow {
+			c.BucketMs, c.Buckets = c09Defaults().BucketMs, c09Defaults().Buckets
+		} else {
+			opts = append(opts, WithWindow(time.Duration(c.BucketMs*c09Ms)*time.Duration(c.Buckets)), WithBuckets(c.Buckets))
+		}
+		if c.OmitThreshold {
+			c.Threshold = c09Defaults().Threshold
+		} else {
+			opts = append(opts, WithCpuThreshold(c.Threshold))
+		}
 		bns := c.BucketMs * c09Ms
 		sd := &c09Side{threshold: c.Threshold, buckets: c.Buckets, bucketNs: bns, bps: 1000 / c.BucketMs, win: map[int64]*c09RB{}}
-		sd.sh = NewAdaptiveShedder(WithWindow(time.Duration(bns)*time.Duration(c.Buckets)), WithBuckets(c.Buckets), WithCpuThreshold(c.Threshold))
+		sd.sh = NewAdaptiveShedder(opts...)
 		if len(cfgs) > 1 {
 			sd.tag = fmt.Sprintf(":shedder-%d-of-%d", k+1, len(cfgs))
 		}
@@ -719,6 +739,22 @@ func c09GenPair(r *rand.Rand) c09Trace {
 	tr.More = []c09ShCfg{{BucketMs: []int64{50, 100, 250}[r.Intn(3)], Buckets: []int{4, 10, 20}[r.Intn(3)], Threshold: ths[1]}}
 	if r.Intn(2) == 0 {
 		tr.More[0].BucketMs, tr.More[0].Buckets = tr.BucketMs, tr.Buckets
+	}
+	// the second shedder is often built with options omitted, after a first one with
+	// non-default options: it must behave by the package defaults, not by its sibling's settings
+	if d := c09Defaults(); 1000%d.BucketMs == 0 {
+		switch r.Intn(4) {
+		case 0:
+			tr.More[0].OmitWindow, tr.More[0].BucketMs, tr.More[0].Buckets = true, d.BucketMs, d.Buckets
+		case 1, 2:
+			tr.More[0].OmitWindow, tr.More[0].BucketMs, tr.More[0].Buckets = true, d.BucketMs, d.Buckets
+			fallthrough
+		case 3:
+			tr.More[0].OmitThreshold = true
+			ths[1] = d.Threshold
+			ths[0] = []int64{100, 300, 500, 700, d.Threshold + 50}[r.Intn(5)]
+			tr.Threshold, tr.More[0].Threshold = ths[0], ths[1]
+		}
 	}
 	hi, lo := 0, 1
 	if ths[1] > ths[0] {
